@@ -46,15 +46,16 @@ def is_dyadic53(q):
 
 
 class Ctx:
-    def __init__(self, env, allow_inexact=False):
+    def __init__(self, env, allow_inexact=False, relaxed=False):
         self.env = env
         self.allow_inexact = allow_inexact
+        self.relaxed = relaxed          # classification of a given case: no magnitude limits
         self.inexact = False
         self.novalue = False
         self.events = set()
 
     def chk_int(self, z):
-        if abs(z) >= B62:
+        if abs(z) >= B62 and not self.relaxed:
             raise Out()
         return ("int", z)
 
@@ -67,7 +68,7 @@ class Ctx:
 
     def chk_real(self, q):
         q = Fraction(q)
-        if abs(q) >= B52:
+        if abs(q) >= B52 and not self.relaxed:
             raise Out()
         if not is_dyadic53(q):
             if not self.allow_inexact:
@@ -187,7 +188,7 @@ def pe(cx, ctx, t):
         return ("int", int((Fraction(a[1]) == Fraction(b[1])) != (op == 4)))
     if a[0] == "text" or b[0] == "text":
         raise Out()
-    if op in (9, 10, 11, 12, 13, 14, 15, 16) and ((a[0] == "int" and abs(a[1]) >= B62) or (b[0] == "int" and abs(b[1]) >= B62)):
+    if (not cx.relaxed) and op in (9, 10, 11, 12, 13, 14, 15, 16) and ((a[0] == "int" and abs(a[1]) >= B62) or (b[0] == "int" and abs(b[1]) >= B62)):
         raise Out()              # arithmetic on a Natural from 2^62 up: outside the no-overflow domain
     real = a[0] == "real" or b[0] == "real"
     x, y = Fraction(a[1]), Fraction(b[1])
@@ -484,7 +485,7 @@ def accept(tree, env, allow_inexact=False):
 
 def gen_cases(rng, tier, boost=1):
     cases = []
-    dist = {"adjacent_ops": 0, "random_trees": 0, "equality": 0, "kind_pairs": 0, "trailing_prefix": 0, "prefix_text": 0, "wide_naturals": 0, "inexact": 0, "single": 0, "novalue": 0}
+    dist = {"adjacent_ops": 0, "random_trees": 0, "equality": 0, "kind_pairs": 0, "trailing_prefix": 0, "prefix_text": 0, "wide_naturals": 0, "int64_boundary_reals": 0, "inexact": 0, "single": 0, "novalue": 0}
     nov = [0]
 
     def emit(tree, env, cls, extra=0.25, allow_inexact=False):
@@ -745,6 +746,39 @@ def gen_cases(rng, tier, boost=1):
         if emit(strip_p(t), env, "wide_naturals", extra=rng.choice([0, 0.2])):
             made += 1
 
+    # 10. reals at the int64 boundaries on either side of % / ^ (seeded C04_r7m2: a real left operand
+    #     holding -2^63 and a divisor truncating to -1).  Built directly (the steering evaluator keeps
+    #     reals below 2^52); the oracle judges what is defined, the model is compared everywhere the
+    #     C++ has no undefined double -> int64 conversion (model answer ERR:ub: not compared).
+    B63 = 1 << 63
+    benv = {"rmin": ("r", -1, 63), "rmax": ("r", 1, 63), "rlo": ("r", -4503599627370497, 11),
+            "rin": ("r", -9007199254740991, 10), "rip": ("r", 9007199254740991, 10), "rhi": ("r", 4503599627370497, 11),
+            "r64": ("r", 1, 64), "rm64": ("r", -1, 64), "r62": ("r", 1, 62), "rm62": ("r", -1, 62),
+            "imin": ("i", -B63), "imax": ("i", B63 - 1), "nb63": ("n", B63),
+            "dm1": ("i", -1), "drm1": ("r", -1, 0), "dr15": ("r", -3, -1), "dr05": ("r", -1, -1), "dz": ("n", 0), "d1": ("n", 1)}
+    two = ("d", Fraction(2), "2.0")
+    lefts = [("v", k) for k in ("rmin", "rmax", "rlo", "rin", "rip", "rhi", "r64", "rm64", "r62", "rm62", "imin", "imax", "nb63")] + [
+        ("o", 13, ("p", ("o", 12, ("n", 0), ("n", 1 << 62))), two),          # (0 - 2^62) * 2.0 = -2^63
+        ("o", 13, ("n", 1 << 62), two),                                          # 2^62 * 2.0 = 2^63
+        ("o", 14, ("p", ("o", 12, ("n", 0), ("n", B63 - 1024))), ("d", Fraction(1), "1.0")),
+        ("d", Fraction(10 ** 19), "1e19"), ("d", Fraction(-10 ** 19), "-1e19"),
+        ("i", -(B63 - 1)), ("n", B63), ("n", (1 << 64) - 1)]
+    neg_out = [("v", "rmin"), ("v", "rlo"), ("v", "rm64"), lefts[13], ("d", Fraction(-10 ** 19), "-1e19")]
+    partners = [("i", -1), ("d", Fraction(-3, 2), "-1.5"), ("d", Fraction(-1, 2), "-0.5"), ("n", 0), ("d", Fraction(0), "-0.0"),
+                ("n", 1), ("n", 2), ("n", 3), ("i", -2), ("d", Fraction(1), "1.0"), ("d", Fraction(-1), "-1.0"),
+                ("v", "dm1"), ("v", "drm1"), ("v", "dr15"), ("v", "dr05"), ("v", "dz"), ("v", "d1")]
+    reps_b = 1 if tier == "quick" else 4
+    for _ in range(reps_b * boost):
+        for L in lefts:
+            for P in partners:
+                for op in (15, 14, 16):
+                    if op == 16 and (L in neg_out or L == ("v", "imin")):
+                        continue      # operator^= negates: -INT64_MIN is signed overflow (outside the no-overflow clause; UBSan aborts)
+                    for t in (("o", op, L, P), ("o", op, P, L)):
+                        pt = parenthesise(rng, t, 0)
+                        cases.append(mk_case(sp(rng) + show(rng, pt) + sp(rng), benv, pt))
+                        dist["int64_boundary_reals"] += 1
+
     # 5. real arithmetic with inexact intermediates (+ * / only): model must agree bit for bit,
     #    oracle within 2^-40
     n = (400 if tier == "quick" else 20000) * boost
@@ -823,7 +857,7 @@ def kf_class(case):
     tk = case.split(" ")
     try:
         tree = fix_dec(parse_tree_tok(tk[2]))
-        cx = Ctx(parse_env_tok(tk[1]), True)
+        cx = Ctx(parse_env_tok(tk[1]), True, True)
         try:
             pe(cx, 0, tree)
         except Out:
@@ -971,6 +1005,14 @@ def check(tier):
     cases, dist = gen_cases(rng, tier, boost)
     cases = corpus_cases() + cases
     res = vlib.differential(COMP, exe, cases)
+    # where the model answers ERR:ub the C++ performs an undefined double -> int64 conversion (operand of % ^ & |
+    # outside the 64-bit range): nothing defined to compare with.  A crash there is still reported.
+    def undefined(i, m):
+        # a real trap (SIGFPE, ASan) is reported; UBSan's own report of the undefined step is the expected outcome
+        return m.startswith("ERR:ub") and (not i.startswith("CRASH") or "UBSan" in i)
+    ub_skipped = [x for x in res.mismatch if undefined(x[1], x[2])] + [x for x in res.oracle_fail if undefined(x[1], x[2])]
+    res.mismatch = [x for x in res.mismatch if not undefined(x[1], x[2])]
+    res.oracle_fail = [x for x in res.oracle_fail if not undefined(x[1], x[2])]
 
     found_input = False
     seen = set()
@@ -1040,6 +1082,7 @@ def check(tier):
         "oracle_failures": len(res.oracle_fail),
         "oracle_failures_outside_known_findings": len(unlisted),
         "model_impl_mismatches": len(mism),
+        "undefined_conversions_not_compared": len(ub_skipped),
         "crashes": len(res.crashes),
     }
     rep.assumptions = [
